@@ -127,7 +127,14 @@ def check(case):
             if got.shape != (n_out, N):
                 add(f"wrong-shape:{grp(fn)}", f"{fn} returns shape {got.shape} for states of shape {S.shape} ({mode}); expected {(n_out, N)}", inp, [n_out, N], list(got.shape))
                 continue
-            bad = [(i, j) for i in range(n_out) for j in range(N) if not cm.vclose(got[i, j], single[i, j], 0.0, 1e-8)]  # numpy's vectorised pow/exp may differ from the scalar path by an ulp, which sin/cos of a large argument amplifies; a vectorisation fault is an O(1) difference
+            scale = 0.0
+            for col in cols:  # absolute-error scale: the largest operand of an addition / Mod / trigonometric function met at any column
+                try:
+                    ref.evaluate(col["t"], col["states"], col["params"])
+                    scale = max(scale, float(ref.last_maxabs))
+                except Exception:  # noqa: BLE001
+                    pass
+            bad = [(i, j) for i in range(n_out) for j in range(N) if not cm.vclose(got[i, j], single[i, j], scale, 1e-8)]  # numpy's vectorised pow/exp may differ from the scalar path by an ulp, which sin/cos of a large argument amplifies; a vectorisation fault is an O(1) difference
             if bad:
                 add(f"column-differs:{grp(fn)}", f"{fn} ({mode}): entries {bad[:4]} of the batched result differ from the single-column calls", inp,
                     [cm.tolist(single[i]) for i in sorted({i for i, _ in bad})][:3], [cm.tolist(got[i]) for i in sorted({i for i, _ in bad})][:3])
